@@ -87,6 +87,7 @@ func (r *rawRequest) SetResponse(v *RespValue) {
 		hook(r)
 	}
 	close(r.done)
+	verifhook.At2("rawRequest.SetResponse.published", r, v)
 }
 
 func (r *rawRequest) Response() *RespValue {
